@@ -299,6 +299,18 @@ def pipeline_case(args):
                 errs.append(("foreign-splice-site:" + kinds, "read %s %s (input %s): corrected %s site %d is neither the read's own, nor of "
                              "the assigned isoform %s, nor an annotated site within tolerance; corrected blocks %s" %
                              (nm, list(devs), blocks, side, site, sorted(assigned.get(nm, ())), cb)))
+        # an intron of the read may move, be replaced by annotated introns overlapping it, or go away together with the terminal
+        # exon beyond it (then the read starts / ends at the neighbouring exon) - it never just disappears from inside the alignment:
+        # the corrected read would cover bases the read itself skipped
+        cintr = [(cb[i][1] + 1, cb[i + 1][0] - 1) for i in range(len(cb) - 1)]
+        for i in range(len(blocks) - 1):
+            l, r = blocks[i][1] + 1, blocks[i + 1][0] - 1
+            if any(a <= r and l <= b_ for a, b_ in cintr):
+                continue
+            if r < cb[0][0] or l > cb[-1][1]:
+                continue
+            errs.append(("intron-vanished:" + kinds, "read %s %s (input %s): its intron %d-%d lies inside the corrected alignment %s and overlaps none "
+                         "of its introns" % (nm, list(devs), blocks, l, r, cb)))
     missing = set(reads) - set(b["name"] for b in bed)
     if missing:
         errs.append(("read-missing", "%d reads missing from the BED, e.g. %s %s" % (len(missing), sorted(missing)[0], list(reads[sorted(missing)[0]][1]))))
